@@ -12,7 +12,8 @@ RL* g_l;
 void vp_setup()
 {
     g_l = new RL();
-    auto w = g_l->lock_write();
+    auto wh = g_l->lock_write();
+    auto* w = &*wh;
 #pragma unroll
     for (int i = 1; i <= NINIT; i++) w->push_back(10 * i);
 }
@@ -22,12 +23,13 @@ void vp_setup()
 void vp_reader()
 {
     auto r = g_l->lock_read();
-    auto it = r->begin();
+    const auto& lst = *r;                 // one registration (the handle registers on first access)
+    auto it = lst.begin();
     int prev = 0;
     int seen = 0;
 #pragma unroll
-    for (int k = 0; k < NINIT + 2; ++k) {
-        if (!(it != r->end())) break;
+    for (int k = 0; k < NINIT + 1; ++k) {
+        if (!(it != lst.end())) break;
         vp_point();                       // pause on an arbitrary element
         int v = *it;
         vp_assert(v > prev, 1200);        // list order, at most once each
@@ -51,7 +53,8 @@ void vp_reader()
 // B: writer: erase an element at a symbolic position, optionally push
 void vp_writer()
 {
-    auto w = g_l->lock_write();
+    auto wh = g_l->lock_write();
+    auto* w = &*wh;
     auto it = w->begin();
 #if ERASE_POS == 1
     ++it;
@@ -98,7 +101,8 @@ void vp_writer2()
 void vp_final()
 {
     // contents after everything finished equal the sequential result; traversal under a fresh handle
-    auto r = g_l->lock_read();
+    auto rh = g_l->lock_read();
+    const auto* r = &*rh;
     int erased = vp_g(3);
     int prev = 0;
     int cnt = 0;
